@@ -74,7 +74,7 @@ func Check() *engine.Check {
 			"change, fetch outcome, notification delivery: oldest / oldest twice / second-oldest first / all, optionally with the next processor call " +
 			"failing). States are merged by a fingerprint of world (content per source, pending notifications), provider-private remembered " +
 			"hashes, repository dump (known rules and tree) and the oracle's own memory. A step that violates the oracle ends its history (its " +
-			"successors are not explored). evaluations = transitions = histories executed on the real code. A transition is non-trivial when the " +
+			"successors are not explored). Because merged states may still differ in something the implementation remembers and the fingerprint does not know of, the kubernetes system is also run over every history of up to 4 (thorough: 5) actions on one object with the status patch succeeding, nothing merged. evaluations = transitions = histories executed on the real code. A transition is non-trivial when the " +
 			"provider looked at a source and either called the processor or had to decide about a loaded rule set; distinct = distinct " +
 			"(system, history of the state, action). Fetch outcomes include a connection lost inside the body (http_endpoint) and requests the " +
 			"storage refuses (cloud_blob: permission denied, throttled). Two further parts: (start) the file_system provider started by its real " +
@@ -190,6 +190,15 @@ func run(c *engine.Ctx) {
 		}
 
 		bfs(c, pl.sys, pl.depth)
+
+		// states the fingerprint takes for one may differ in something the implementation remembers and the fingerprint does
+		// not know of: over a reduced alphabet every history up to a depth is run, nothing merged
+		if um, ok := pl.sys.(interface {
+			Unmerged(quick bool) (int, func(Action) bool)
+		}); ok {
+			depth, keep := um.Unmerged(c.Quick())
+			unmerged(c, pl.sys, depth, keep)
+		}
 
 		if ts, ok := pl.sys.(interface{ Targeted() [][]Action }); ok && c.Shard == 0 {
 			for _, h := range ts.Targeted() {
@@ -439,6 +448,84 @@ func bfs(c *engine.Ctx, s system, depth int) {
 
 		frontier = next
 	}
+}
+
+// unmerged runs every history of at most depth actions that keep accepts, depth first, without merging states; the
+// histories are dealt over the workers by their first two actions.
+func unmerged(c *engine.Ctx, s system, depth int, keep func(Action) bool) {
+	var n int64
+
+	defer func() { c.Count("histories_without_state_merging/"+s.Name(), n) }()
+
+	if c.Shard == 0 {
+		c.Count("depth_without_state_merging/"+s.Name(), int64(depth))
+	}
+
+	idx := 0
+
+	var rec func(hist []Action, enabled []Action)
+
+	rec = func(hist []Action, enabled []Action) {
+		for _, a := range enabled {
+			if !keep(a) {
+				continue
+			}
+
+			if len(hist) == 1 {
+				idx++
+
+				if !c.Mine(idx) {
+					continue
+				}
+			}
+
+			if c.Expired() {
+				return
+			}
+
+			h := append(append(make([]Action, 0, len(hist)+1), hist...), a)
+			// the first level is run by every worker and counted by the first
+			counting := len(h) > 1 || c.Shard == 0
+
+			res, err := execute(s, h, false)
+			if err != nil {
+				c.Infra("c18 %s %v: %v", s.Name(), h, err)
+
+				return
+			}
+
+			rep := res.last()
+
+			if counting {
+				n++
+
+				c.Eval(1)
+				c.Traces(1)
+				c.Transitions(1)
+
+				if rep.Nontrivial {
+					c.Nontrivial(s.Name() + "|unmerged|" + fmt.Sprint(h))
+				}
+
+				report(c, s, h, res, false)
+			}
+
+			if rep.Panicked || len(rep.Violations) > 0 || len(h) >= depth {
+				continue
+			}
+
+			rec(h, res.enabled)
+		}
+	}
+
+	root, err := execute(s, nil, false)
+	if err != nil {
+		c.Infra("c18 %s: %v", s.Name(), err)
+
+		return
+	}
+
+	rec(nil, root.enabled)
 }
 
 func systemByName(name, dir string) system {
